@@ -25,6 +25,7 @@ ASSUMPTIONS = ["what the unit advertises is read from the ability record with th
                "codec", "ValueError must be raised by the call itself (before or while awaited)"]
 REQUIRED_OBS = ["refused_locally", "accepted_one_frame", "bitmaps_covered", "timer_pairs",
                 "clamped_setpoints", "sensorless_zone_refusals", "damper_out_of_range"]
+SOAK = True   # also judged by the whole-run monitors of the soak sessions (vf/soak.py)
 BUDGET = {"quick": 100, "thorough": 1500}
 
 
